@@ -305,6 +305,9 @@ def handle (req : Json) : Except String Json := do
         ("gen_rhs_valid", Json.bool (match lay, Impl.genRhs m π false, Impl.genRhs m π true with
           | some L, some p0, some p1 => checkRhs m L p0 && checkRhs m L p1
           | _, _, _ => true)),
+        ("gen_monitor_valid", Json.bool (match lay, Impl.genMonitor m π false, Impl.genMonitor m π true with
+          | some L, some p0, some p1 => checkMonitor m L p0 && checkMonitor m L p1
+          | _, _, _ => true)),
         ("helper_clash_free", Json.bool (Impl.checkNoHelperClash m)),
         ("gen_rl_valid", Json.bool (match lay with
           | some L =>
